@@ -61,6 +61,21 @@ func TestC10CleanAndSound(t *testing.T) {
 			t.Fatalf("second oracle call differs: %s", d)
 		}
 		last := got[len(got)-1]
+		if c.Stream == "save-write-fails" {
+			if !c10HasTagPrefix(c, "cause=target:w") || !c10HasTag(c, "open-succeeds-write-fails") {
+				t.Fatalf("save-write-fails: tags %v", c.Tags)
+			}
+			if c10HasTag(c, "then=render") {
+				// the operation under test is the save; the File still renders after a failed Save
+				last = got[len(got)-2]
+				if after := got[len(got)-1]; last.Kind == "save" && (after.Kind != "write" || after.Failed) {
+					t.Fatalf("save-write-fails: render after the failed save shows %s", after)
+				}
+			}
+			if last.Kind == "save" && last.Failed {
+				outcomes["write-fails:"+c10TargetKind(c.Hist[len(c.Hist)-1].A)+c10TargetKind(c.Hist[len(c.Hist)-2].A)]++
+			}
+		}
 		switch c.Stream {
 		case "after-failed-render":
 			// construction: exactly the operations named in skip fail, all others succeed
@@ -161,6 +176,14 @@ func TestC10CleanAndSound(t *testing.T) {
 		if outcomes[k] < 20 {
 			t.Errorf("%s seen only %d times: %v", k, outcomes[k], outcomes)
 		}
+	}
+	for _, k := range p.writeFailKinds() {
+		if outcomes["write-fails:"+k] < 10 {
+			t.Errorf("Save failing in the write on target %s seen only %d times: %v", k, outcomes["write-fails:"+k], outcomes)
+		}
+	}
+	if len(p.writeFailKinds()) == 0 {
+		t.Log("no write-failing save target is available in this environment")
 	}
 	if _, err := os.Stat(root); !os.IsNotExist(err) {
 		t.Errorf("temp root %s still exists after the last save case was judged", root)
@@ -328,10 +351,47 @@ func TestC10OracleRejectsSaveViolations(t *testing.T) {
 			c10Reject(t, p, tk+"/swallowed fs error", c, []hist.Obs{{Kind: "save", Path: c.Hist[len(c.Hist)-1].A, Out: "package p\n"}}, "swallowed")
 			// what the executor really reports when Save returns nil and there is no file
 			c, _ = c10Mk(p, seed, c10spec{tree: "valid", entry: "save", target: tk})
-			c10Reject(t, p, tk+"/swallowed fs error (executor)", c, []hist.Obs{{Kind: "bad", Msg: "saved file unreadable: open ...: no such file or directory"}}, "unexpected class")
+			c10Reject(t, p, tk+"/swallowed fs error (executor)", c, []hist.Obs{{Kind: "bad", Msg: "saved file unreadable: open ...: no such file or directory"}}, "swallowed")
 			// a wrapped error that is no *os.PathError any more
 			c, _ = c10Mk(p, seed, c10spec{tree: "valid", entry: "save", target: tk})
 			c10Reject(t, p, tk+"/replaced fs error", c, []hist.Obs{{Kind: "bad", Msg: "unexpected error: save failed"}}, "unexpected class")
+		}
+		// targets that open but cannot be written (/dev/full ...): the error of the write is returned
+		for _, tk := range p.writeFailKinds() {
+			c, got := c10Mk(p, seed, c10spec{tree: "valid", entry: "save", target: tk})
+			if got[0].Kind != "save" || !got[0].Failed {
+				t.Fatalf("%s: want a failed save, got %v", tk, got)
+			}
+			if !c.Hist[len(c.Hist)-1].Flag {
+				t.Fatalf("%s: the model is not told that the file system fails", tk)
+			}
+			c10Accept(t, p, tk+"/write error returned", c, got)
+			sym := c.Hist[len(c.Hist)-1].A
+			// Save returned nil: what the executor reports for a device, and for a /proc file
+			c, _ = c10Mk(p, seed, c10spec{tree: "valid", entry: "save", target: tk})
+			c10Reject(t, p, tk+"/swallowed write error (device)", c, []hist.Obs{{Kind: "save", Path: sym}}, "swallowed")
+			c, _ = c10Mk(p, seed, c10spec{tree: "valid", entry: "save", target: tk})
+			c10Reject(t, p, tk+"/swallowed write error (unreadable)", c, []hist.Obs{{Kind: "bad", Msg: "saved file unreadable: read x: input/output error"}}, "swallowed")
+			// the error replaced by one of another class
+			c, _ = c10Mk(p, seed, c10spec{tree: "valid", entry: "save", target: tk})
+			c10Reject(t, p, tk+"/replaced write error", c, []hist.Obs{{Kind: "bad", Msg: "unexpected error: short write"}}, "unexpected class")
+			// something left behind next to the target
+			if tk != "wfull-direct" {
+				c, got = c10Mk(p, seed, c10spec{tree: "valid", entry: "save", target: tk})
+				os.WriteFile(target(c, sym+".tmp"), []byte("partial"), 0644)
+				c10Reject(t, p, tk+"/temp file left", c, got, ".tmp was created")
+				// the symbolic link replaced by a regular file (write to a temp file + rename)
+				c, got = c10Mk(p, seed, c10spec{tree: "valid", entry: "save", target: tk})
+				os.Remove(target(c, sym))
+				os.WriteFile(target(c, sym), []byte("package p\n"), 0644)
+				c10Reject(t, p, tk+"/link replaced", c, got, sym+" changed")
+			}
+			// a tree that does not format fails for that reason, the target is not even opened
+			c, got = c10Mk(p, seed, c10spec{tree: "invalid", entry: "save", target: tk})
+			if got[0].Kind != "fmterr" {
+				t.Fatalf("%s: want fmterr, got %v", tk, got)
+			}
+			c10Accept(t, p, tk+"/format error first", c, got)
 		}
 		// a failing target whose neighbourhood was damaged on the way
 		c, got = c10Mk(p, seed, c10spec{tree: "valid", entry: "save", target: "isdir"})
